@@ -598,7 +598,12 @@ type stressWorld struct {
 	yield                           bool
 }
 
-func newStress() *stressWorld {
+// newStress(warm): with warm = true every interpreted call expression of the stress functions is executed once on
+// the creator's goroutine before any other goroutine runs them.  gomacro caches the callee in variables captured by
+// the compiled call expression (fast/call*ret*.go: cachedfunv, cachedfun), written without synchronisation on the
+// first execution: two goroutines running the same call expression for the first time race on them (observation
+// C33-callsite-cache-race, replayed by coldcall() in the -race build).  The generators avoid that class by warming.
+func newStress(warm bool) *stressWorld {
 	s := &stressWorld{ir: newInterp()}
 	ir := s.ir
 	chk := func(interpv xr.Value) xr.Value {
@@ -636,6 +641,14 @@ func newStress() *stressWorld {
 	s.workFn = get("work").(func(int) int)
 	s.srtFn = get("srt").(func([]int))
 	s.fanFn = get("fan").(func(int, chan int))
+	if warm {
+		s.workFn(3)
+		s.srtFn([]int{3, 1, 2})
+		out := make(chan int, 1)
+		s.fanFn(1, out) // one goroutine: the call expressions inside the go statement's function are warmed by a single executor
+		<-out
+		s.calls = 0
+	}
 	return s
 }
 
@@ -646,7 +659,7 @@ func newStress() *stressWorld {
 // unrelated later goroutine with the reused identity, which the race detector reports; that input class is
 // replayed separately by churn().
 func stress(rep *vh.Report, wd *vh.Watchdog, rng *vh.Rng, rounds, per int, hold bool) {
-	s := newStress()
+	s := newStress(true)
 	tasks := 0
 	for r := 0; r < rounds; r++ {
 		wd.Beat(fmt.Sprint("stress round ", r))
@@ -738,6 +751,7 @@ func stress(rep *vh.Report, wd *vh.Watchdog, rng *vh.Rng, rounds, per int, hold 
 // ---------------------------------------------------------------- part D: recorded observations
 const keyStale = "C33-stale-foreign-record"
 const keyEvalOther = "C33-eval-other-goroutine"
+const keyCold = "C33-callsite-cache-race"
 
 func knownKeys() map[string]bool {
 	out := map[string]bool{}
@@ -762,7 +776,7 @@ func partD(rep *vh.Report) {
 	known := knownKeys()
 	runtime.GOMAXPROCS(1)
 	defer runtime.GOMAXPROCS(runtime.NumCPU())
-	s := newStress()
+	s := newStress(true)
 	// D1: a goroutine started by compiled code calls an interpreted function and exits: its record stays
 	// registered; a later goroutine that receives the same identity finds and uses that record
 	stale := false
@@ -839,7 +853,7 @@ func raceChild(a *vh.Args, mode, logp string) (error, []string) {
 // churn replays, in a process of its own, the input class the -race stress avoids: goroutines started by compiled
 // code call interpreted functions and exit with no synchronisation towards the goroutines started after them
 func churn() {
-	s := newStress()
+	s := newStress(true)
 	for r := 0; r < 4; r++ {
 		var wg sync.WaitGroup
 		for i := 0; i < 150; i++ {
@@ -853,9 +867,34 @@ func churn() {
 	}
 }
 
+// coldcall replays, in a process of its own, the other class the generators avoid: several goroutines execute the
+// same interpreted call expressions for the first time concurrently (no warm-up); all goroutines stay alive until
+// the end, so no identity is reused
+func coldcall() {
+	runtime.GOMAXPROCS(8)
+	for r := 0; r < 40; r++ {
+		s := newStress(false)
+		var wg, fin sync.WaitGroup
+		start, release := make(chan struct{}), make(chan struct{})
+		for i := 0; i < 16; i++ {
+			wg.Add(1)
+			fin.Add(1)
+			go func(k int) { defer wg.Done(); <-start; s.workFn(1); fin.Done(); <-release }(i) // work(1): every goroutine executes each call expression once (a later read by the same goroutine would hide its write from the detector)
+		}
+		close(start)
+		fin.Wait()
+		close(release)
+		wg.Wait()
+	}
+}
+
 func reexecWithRaceLog(a *vh.Args) {
 	err, reports := raceChild(a, "1", a.Path("race"))
 	errc, churnReports := raceChild(a, "churn", a.Path("race_churn"))
+	errd, coldReports := raceChild(a, "coldcall", a.Path("race_coldcall"))
+	if errc == nil {
+		errc = errd
+	}
 	rp := a.Path("report.json")
 	var m map[string]interface{}
 	if b, e := os.ReadFile(rp); e == nil && json.Unmarshal(b, &m) == nil {
@@ -882,6 +921,13 @@ func reexecWithRaceLog(a *vh.Args) {
 				fl = append(fl, map[string]interface{}{"key": keyStale, "what": fmt.Sprintf("%d data race report(s): a goroutine started by compiled code uses the record left registered by an exited one with the same identity", len(churnReports)), "input": "churn(): go func(){ work(k) }() x150 x4 without synchronisation between exits and starts", "got": first(churnReports)})
 			}
 		}
+		ex["race_reports_coldcall_replay"] = len(coldReports)
+		if len(coldReports) > 0 {
+			ex["race_report_coldcall_first"] = first(coldReports)
+			if knownKeys()[keyCold] {
+				fl = append(fl, map[string]interface{}{"key": keyCold, "what": fmt.Sprintf("%d data race report(s): two goroutines executing the same interpreted call expression for the first time write its callee cache (cachedfunv/cachedfun) concurrently", len(coldReports)), "input": "coldcall(): func leaf(x int) int {...}; func work(n int) int {... s += leaf(j) ...}; 8 goroutines call work concurrently on a fresh interpreter", "got": first(coldReports)})
+			}
+		}
 		m["extra"] = ex
 		m["failures"] = fl
 		b, _ := json.MarshalIndent(m, "", " ")
@@ -903,11 +949,16 @@ func main() {
 		churn()
 		return
 	}
+	if os.Getenv("C33_CHILD") == "coldcall" {
+		coldcall()
+		return
+	}
 	rng := vh.NewRng(a.Seed)
 	rep := vh.NewReport(a, "part A: rounds of 2..64 simultaneously live goroutines checking gls.GoID() constant (after Gosched, channel receive, Sleep, deep recursion, LockOSThread) and pairwise distinct; "+
 		"part B: PRNG-dictated schedules (8..40 events: call, return, go statement with named function or with function literal, make closure, call closure made by another goroutine, foreign goroutine start/exit) over <= 6 live goroutines, "+
 		"registry snapshot after every event compared with the model, ownership/sharing/stability oracles on every frame allocation; a schedule is non-trivial when >= 2 goroutines besides the creator ran interpreted frames; distinct by SHA-256 of the event list; "+
-		"part C: stress rounds (GOMAXPROCS 1,2,4,8; yields injected in odd rounds) of goroutines from go statements and compiled code (incl. sort.Slice callbacks) with the ownership probe at every interpreted call")
+		"part C: stress rounds (GOMAXPROCS 1,2,4,8; yields injected in odd rounds) of goroutines from go statements and compiled code (incl. sort.Slice callbacks) with the ownership probe at every interpreted call; "+
+		"avoided input classes (replayed in separate processes of the -race build, reported under their own keys): first concurrent execution of one call expression by several goroutines (call expressions are warmed on the creator's goroutine), and - in the -race build - compiled-code goroutines exiting while unrelated ones start (identity reuse finds the stale record)")
 	limit := 60 * time.Second
 	if raceEnabled {
 		limit = 300 * time.Second
